@@ -254,6 +254,7 @@ func TestC04(t *testing.T) {
 		"zeros and unknown bytes appended; arbitrary payloads (random / zero / 0xFF) of every length 0..255 real decoder vs reference decoder; every decode runs on a slice with " +
 		"spare capacity inside a 0xA5-filled backing array (canary). distinct = distinct (type, version, encoding)")
 	rep.RuleAdd("Also: spare capacity behind the last payload of a shared buffer rewritten by another goroutine during decodes; every encoding scribbled over by the caller after use; payloads longer than 255 bytes.")
+	rep.RuleAdd("Rounds 12-15: payload lengths above 255, neighbours in memory rewritten by another goroutine, encodings scribbled over by the caller, strings of 256 and more bytes.")
 	rep.Assume("reference canonicalisation harness/ref (strings cut at length / first NUL, enums masked to wire width, floats by bit pattern)")
 	seed := vh.Seed()
 	all := shippedOrViolation(rep, t)
